@@ -94,6 +94,10 @@ def e1_configs(tier):
     else:
         cfgs.append(stages.WalkTwice(kind="filtered", depth=2, W=2, accepted=four, first_depth=1, first_accepted=[(1, 0, 0)], with_pause=True, max_deviations=6))
         cfgs.append(stages.WalkTwice(kind="filtered", depth=2, W=2, accepted=four, first_depth=1, first_accepted=[(1, 0, 0)], with_pause=True))
+    if tier == "quick":
+        # the complete depth-2 pyramid (21 callbacks; 47 000 states unbounded, thorough tier) within a deviation bound
+        cfgs.append(W(kind="generic", depth=2, W=2, with_pause=True, max_deviations=3))
+        cfgs.append(W(kind="generic", depth=2, W=3, max_deviations=2))
     # the calling process already owns an unrelated idle child process (dead-worker detection that counts
     # the process's children must not misfire)
     cfgs.append(W(kind="filtered", depth=2, W=2, accepted=three, foreign_child=True))
